@@ -136,6 +136,9 @@ class Extractor(Translator):
                 self.rule("libm:" + base)
                 self.assume("libm", "libm functions (sqrt, sin, cos, pow, round, floor, ...) are uninterpreted stubs with assumed contracts from include/verif_prelude.h")
                 return X("call", fn, [self.rv(args[0]), self.rv(args[1])], ty=t)
+        if base == "signbit" and len(args) == 1 and parse_type(ps[0]).name in ("float", "double"):
+            self.rule("fp-classify")
+            return X("call", "verif_signbit_" + ("f32" if parse_type(ps[0]).name == "float" else "f64"), [self.rv(args[0])], ty=parse_type("bool"))
         if base in ("isnan", "isinf", "isfinite") and len(args) == 1:
             t = parse_type(ps[0])
             self.rule("fp-classify")
